@@ -173,7 +173,7 @@ HAND = {
 
 
 def gen_parse(rng, tier):
-    n = 700 if tier == "quick" else 20000
+    n = 700 if tier == "quick" else 160000
     for kind, xs in HAND.items():
         for s in xs:
             yield {"kind": kind, "s": s}
@@ -207,7 +207,7 @@ def gen_parse(rng, tier):
 
 
 def gen_str(rng, tier):
-    n = 500 if tier == "quick" else 20000
+    n = 500 if tier == "quick" else 160000
     for kind in KINDS:
         for _ in range(n):
             yield {"kind": kind, "v": rand_value(rng, kind)}
@@ -224,7 +224,7 @@ FMTS = ["%Y-%m-%d%z", "%H:%M:%S%z", "---%d%z", "--%m%z", "--%m-%d%z", "%Y%z", "%
 
 
 def gen_args(rng, tier):
-    n = 800 if tier == "quick" else 20000
+    n = 800 if tier == "quick" else 160000
     hand = ["---01", "---31Z", "--12", "--12-31+01:00", "2001", "2001-10", "-2001-10Z", "--1", "---1", "----", "--12-", "---01+", "a"]
     for f in FMTS:
         for s in hand:
@@ -259,7 +259,7 @@ def gen_int(rng, tier):
     hand = ["\x1c1", "1\x1f", "\x0b1", "\x0c1", "\x851", "\xa01", "\u20281", "1\x1c\xa0", "0", "00", "-0", "+5", " 5 ", "5_0", "_5", "5_", "5__0", "", " ", "-", "+", "+-5", "٣", "1٣", "²", " 5", "5 ", "1 2", "0x1", "1e3", "1.0", "-_1", "+_1", "1_٣", "１２"]
     for s in hand:
         yield {"s": s}
-    n = 1500 if tier == "quick" else 30000
+    n = 1500 if tier == "quick" else 240000
     a = "0123456789+-_ \t٣²１x\x1c\x1f\xa0\x0b"
     for _ in range(n):
         yield {"s": "".join(rng.choice(a) for _ in range(rng.randint(0, 6)))}
@@ -336,7 +336,7 @@ PERIOD_HAND = [
 def gen_period(rng, tier):
     for s in PERIOD_HAND:
         yield {"s": s}
-    n = 1200 if tier == "quick" else 30000
+    n = 1200 if tier == "quick" else 240000
     for _ in range(n):
         k = rng.randrange(5)
         off = D.format_offset(rand_offset(rng))
@@ -367,7 +367,7 @@ DUR_HAND = [
 def gen_dur(rng, tier):
     for s in DUR_HAND:
         yield {"s": s.replace("\\n", "\n")}
-    n = 1500 if tier == "quick" else 30000
+    n = 1500 if tier == "quick" else 240000
     for _ in range(n):
         parts = ""
         for c in "YMD":
@@ -466,7 +466,7 @@ def gen_cmp(rng, tier):
             if d <= D.monthlen(y, m):
                 a = [y, m, d, 12, 0, 0, 0, None]
                 yield {"kind": "datetime", "a": a, "b": near(rng, a, "datetime")}
-    n = 1500 if tier == "quick" else 40000
+    n = 1500 if tier == "quick" else 320000
     for kind in ("time", "datetime"):
         for _ in range(n):
             v = rand_value(rng, kind)
@@ -478,7 +478,7 @@ def gen_dfc(rng, tier):
         for m in range(1, 13):
             for d in (1, 28, 29, 30, 31):
                 yield {"v": [y, m, d]}
-    for _ in range(300 if tier == "quick" else 20000):
+    for _ in range(300 if tier == "quick" else 160000):
         yield {"v": [rng.randint(-10**6, 10**6), rng.randint(-3, 16), rng.randint(-5, 40)]}
 
 
